@@ -1,7 +1,9 @@
 (* Corr/C09.v — a C09 correspondence case: one explicit schedule driven through the
    schedule points of the real code (ndb_execute_write on several threads).
-   Compared: (1) the order of the four events of one statement as observed on the real
-   code in a single-thread calibration run = the model's program order; (2) the event
+   Compared: (1) the order of the five events of one statement as observed on the real
+   code = the model's program order: lock, snapshot, log, publish from the schedule points of a single-thread
+   calibration run, and the position of the UNLOCK found by probing - a second writer released while the first
+   is parked at each of its points stays blocked until the first one is done; (2) the event
    trace of the driven run = the model's trace for the same schedule (blocked steps
    included: the driver skips a step exactly when the model says the lock is taken);
    (3) the value read back through ndb_query afterwards = the model's cell;
@@ -21,7 +23,7 @@ Record case := {
 
 Definition evkind_eqb (a b : evkind) : bool :=
   match a, b with
-  | ESnap, ESnap | ELock, ELock | ECommit, ECommit | EUnlock, EUnlock => true
+  | ESnap, ESnap | ELock, ELock | ELog, ELog | EPublish, EPublish | EUnlock, EUnlock => true
   | _, _ => false
   end.
 
